@@ -37,6 +37,14 @@ mod scalar {
     use ::glam_scalar as glam;
     include!("suite.rs");
 }
+/// scalar-math with `glam-assert`: the second pass for the scalar copies (a quarter of the volume)
+#[cfg(not(feature = "core"))]
+mod scalar_asserting {
+    pub const VARIANT: &str = "scalar+glam-assert";
+    pub const SIMD_SIN: bool = false;
+    use ::glam_scalar_assert as glam;
+    include!("suite.rs");
+}
 mod libmv {
     pub const VARIANT: &str = "libm";
     pub const SIMD_SIN: bool = cfg!(all(target_arch = "x86_64", target_feature = "sse2"));
@@ -68,6 +76,7 @@ fn main() {
         subs.extend(simd::subs(&args));
         subs.extend(scalar::subs(&args));
         subs.extend(asserting::subs(&args));
+        subs.extend(scalar_asserting::subs(&args).into_iter().map(|s| s.with_div(4)));
         subs.extend(libmv::subs(&args));
     }
     #[cfg(feature = "core")]
